@@ -64,3 +64,12 @@ Print Assumptions src_fixed_to_name_tie.
 Theorem src_fixed_to_abbr_tie : forall offset, so_FixedOffsetToAbbr offset = FixedOffsetToAbbr offset.
 Proof. exact so_FixedOffsetToAbbr_tie. Qed.
 Print Assumptions src_fixed_to_abbr_tie.
+
+From CCTZ Require Import SourceLoad SourceNames SourceNamesProofs.
+(* ResetToBuiltinUTC (what fixed_time_zone / a fixed-offset name builds) as clang reads it now *)
+Theorem src_reset_to_builtin_utc_tie : forall tr0 d0 f0 e0 ly0 offset z,
+  reset_to_builtin_utc offset = OK z ->
+  sn_ResetToBuiltinUTC (mkZone tr0 [] d0 [] f0 e0 ly0) offset
+  = OK (true, mkZone (z_trans z) (z_types z) (z_default z) (z_abbrs z) (z_future z) (z_extended z) ly0).
+Proof. exact SourceNamesProofs.sn_ResetToBuiltinUTC_tie. Qed.
+Print Assumptions src_reset_to_builtin_utc_tie.
